@@ -338,7 +338,7 @@ P("C07", "model_checking",
 P("C09", "model_checking",
   "Seek-point bookkeeping of Encoder::encode (first sample, byte offset, length per frame; sample counter; declared-length overflow), byte counting under short writes, placeholder table "
   "and interval filters, ordering rule shared by SEEKTABLE reader and writer.",
-  BASE_NOTE, ["Encoder::finalize_inner: the three seek-table layouts, size neutrality, MD5, header rewrite (does not finish in CBMC)", "frame-size extrema in encode_frame", "regenerated table equality"])
+  BASE_NOTE, ["Encoder::finalize_inner with a reserved seek table or a table carved from padding (does not finish in CBMC: boxed filter iterator, Contiguous::try_extend); the sample-count, MD5 and header-rewrite clauses ARE decided (K-encoder_finalize_noseektable)", "frame-size extrema in encode_frame", "regenerated table equality"])
 P("C11", "model_checking",
   "STREAMINFO, block header and seek point: parse/serialise identity proved for ALL bit strings (field by field against RFC 9639 8.2), sizes reported equal sizes written; BlockSize / "
   "bit-counter arithmetic exact; seek-table ordering rule.",
@@ -448,3 +448,29 @@ add("K-frames_reuse_buffer_shape", ["C16", "C03"], D + "k_frames_reuse_buffer_sh
     contract="read_subframes into a buffer holding a previous frame of another shape (same sample count): shape and samples are exactly those of the frame just decoded", timeout=300)
 add("K-metadata_duration_extremes", ["C12"], M + "k_metadata_duration_extremes", tier="quick", bound="16 concrete (total, rate) pairs incl. the largest 36-bit total and the smallest/largest rates",
     functions=["metadata::Metadata::duration"], contract="duration(): exact seconds and nanoseconds, no overflow, at the extremes of STREAMINFO's ranges", timeout=200)
+
+add("K-encoder_finalize_noseektable", ["C09", "C15", "C14"], E + "k_encoder_finalize_noseektable", tier="quick", domain="full",
+    functions=["encode::Encoder::finalize_inner"],
+    contract="Encoder::finalize_inner (seek-table policy off): declared total must be matched exactly else SampleCountMismatch; undeclared: 0 => NoSamples, >= 2^36 => ExcessiveTotalSamples, else recorded; "
+             "on Ok the MD5 is stored, the stream is repositioned exactly once to the remembered start and the metadata rewritten exactly once after that; on Err nothing is touched; second call is a no-op",
+    stubs=["metadata::write_blocks (recorder)", "md5::Context::finalize (fixed digest)"], timeout=300)
+add("K-encoder_finalize_no_room", ["C09"], E + "k_encoder_finalize_no_room", tier="quick", bound="two frames written, policy 'every frame', neither SEEKTABLE nor PADDING present",
+    functions=["encode::Encoder::finalize_inner"],
+    contract="finalize_inner with a seek-table policy but no reserved table and no padding: no table is added, nothing else changes (the reserved-table and carve-from-padding layouts do not finish in CBMC)",
+    stubs=["metadata::write_blocks", "md5::Context::finalize"], timeout=300)
+
+for h in ["k_stream_writer_zero_channels", "k_stream_writer_nine_channels", "k_stream_writer_stereo_odd"]:
+    add("K-" + h[2:], ["C15", "C16"], E + h, tier="thorough", bound="channel count and sample count fixed per instance (0 channels, 9 channels, 3 samples for 2 channels); rates and depths from representative sets",
+        functions=["encode::FlacStreamWriter::write"],
+        contract="FlacStreamWriter::write rejects 0 or more than 8 channels and sample counts not divisible by the channel count without panicking, writes no header and does not consume a frame number",
+        stubs=["audio::Frame::fill_from_samples", "stream::FrameHeader::write_subset", "encode::encode_subframe"], timeout=600)
+
+add("K-padding_roundtrip", ["C11", "C12"], M + "k_padding_roundtrip", tier="quick", bound="sizes <= 64 bytes; all stream contents and truncations",
+    functions=["metadata::Padding::from_reader", "metadata::Padding::to_writer"],
+    contract="PADDING: parse(size) consumes exactly size bytes (fails only on a short stream) and yields Padding{size}; serialising writes exactly size zero bytes; bytes() == size", timeout=300)
+add("K-application_roundtrip", ["C11", "C12"], M + "k_application_roundtrip", tier="thorough", bound="declared sizes <= 6 bytes; all contents",
+    functions=["metadata::Application::from_reader", "metadata::Application::to_writer"],
+    contract="APPLICATION: 32-bit id then size-4 payload bytes; size < 4 => InsufficientApplicationBlock; serialises back to the same bytes; bytes() == size", timeout=900)
+add("K-picture_type_table", ["C11", "C12"], M + "k_picture_type_table", tier="quick", domain="full",
+    functions=["metadata::PictureType::from_reader", "metadata::PictureType::to_writer"],
+    contract="PICTURE type, all 32-bit codes: Ok iff code <= 20, and the type serialises back to the same code", timeout=200)
